@@ -218,6 +218,13 @@ class Deg:
                 self, "length_attrs", ()):
             return Fraction(1)
         args = [self.expr(a, env) for a in e.args]
+        fn0 = self.funcs.get(name)
+        if fn0 is not None and e.keywords:
+            # keyword arguments of a package function take their position
+            params = [a.arg for a in fn0.args.args]
+            kwd = {k.arg: k.value for k in e.keywords if k.arg is not None}
+            while len(args) < len(params) and params[len(args)] in kwd:
+                args.append(self.expr(kwd[params[len(args)]], env))
         if name in ZERO:
             return Z
         if name in SAME:
@@ -247,7 +254,16 @@ class Deg:
                 return recv
         fn = self.funcs.get(name)
         if fn is not None:
-            return self.call(fn, args)
+            # keyword arguments take their parameter's position
+            params = [a.arg for a in fn.args.args]
+            kwd = {k.arg: self.expr(k.value, env) for k in e.keywords
+                   if k.arg is not None}
+            degs = list(args)
+            if any(k in params[len(degs):] for k in kwd):
+                last = max(params.index(k) for k in kwd if k in params)
+                while len(degs) <= last:
+                    degs.append(kwd.get(params[len(degs)], Fraction(0)))
+            return self.call(fn, degs)
         raise Unsupported(f"degree analysis: call {name}")
 
 
